@@ -5,6 +5,7 @@
 //   c06.obj <hex>   core.NewParser(r).ParseObject() repeated to EOF/error
 //   c06.cs  <hex>   contentstream.NewParser(b).Parse()
 //   c06.lex <hex>   core.NewLexer(r).NextToken() repeated to EOF/error
+//   c06.lexp / c06.win / c06.operand   token positions, the parser's window, one operand (progress.go)
 //
 // Oracles (independent of the Lean model; expectations come from the harness's
 // own trees and its own ISO 32000 printer):
@@ -411,6 +412,9 @@ func evalRaw(k string, in []byte) outcome {
 	case "cs":
 		return parseContent(in)
 	default:
+		if o, ok := evalProgressRaw(k, in); ok {
+			return o
+		}
 		return lexTokens(in)
 	}
 }
@@ -603,7 +607,7 @@ func stage(n int) bool {
 func Run(c *hx.Ctx) {
 	x := runner{c}
 	defer keepWitnesses(c)
-	c.Rep.Rule = "object trees: every container skeleton to depth 4 (3 in quick) with ≤2 children per array/dict, leaves cycled over a 3-atom alphabet per type, plus random trees to depth 8 with strings/names over all 256 bytes, int64 limits and dyadic reals; each printed by an ISO 32000-1 §7.2-7.3 printer under 10 spelling policies (minimal/maximal white space, comments, CR/LF/CRLF, literal/escaped/octal/hex strings, #-escaped names, random mix); random operator programs (≤60 operations, all operand types, incl. ' \" T* d0); integer/reference sequences; names and strings whose bytes are exactly a keyword or operator of the format (true false null R obj endobj stream endstream xref trailer startxref f n BI ID EI and all 70 content operators, plus one-byte-longer/shorter/other-case near misses) at every position of arrays, dictionaries (key, value, both; last and followed), nested containers, top-level sequences, next to integers and references, and of operand lists (also before the operator of the same spelling), under the ten policies (buckets kwspelled-*); every document-level input also through io.Readers with short reads (1,2,3,7,4095,… byte pieces, random schedules, last piece with io.EOF); large arrays/dictionaries/object sequences/nested containers/long strings and operator programs whose print crosses 1-3 multiples of the 4096-byte I/O buffer, each slid by a white-space or comment prefix of 0..K-1 bytes (K=40 quick, 130 thorough) so that every token and separator kind lies across offsets 4095/4096, 8191/8192, 12287/12288 in turn (distribution buckets straddle-*); container chains nested 498, 499, 500, 501, 502 deep (thorough: also 1, 2, 37, 250, 490, 510, 1000, 1501) around the parsers' documented limit of 500 containers open at once - all arrays, all dictionaries, alternating either way, random per level; alone or with scalar / container siblings before, after or on both sides of the deep child at every level; innermost an empty container, a scalar of every type, or a string / name made of the bytes that open containers - each as a document-level object and as a content-stream operand under two (thorough: all ten plus a random) spelling policies; 499..1100 sibling containers inside one array, one dictionary, one top-level sequence, one operand list and one operation each (levels are given back); three chains at the limit side by side, in sequence and inside one more container, with a too deep one in no / first / middle / last position; and unbalanced inputs (opening delimiters only to depth 3000 (5000), closing delimiters cut off or in excess) (buckets nest-*); literal strings with raw end-of-line bytes inside - CR, CR LF, LF CR, CR CR, CR LF CR LF, CR CR LF (LF as control) alone, first, last, in the middle, inside balanced parentheses, next to escaped backslashes, line continuations of every kind, \\n \\r and octal escapes and binary bytes - each at every position of arrays, dictionaries, nested containers, object sequences (also next to references) and operand lists (Tj, TJ arrays, ' and \", BDC dictionaries) under the ten policies, through full and short reads, and as the same operand for both parsers, plus random piecewise spellings (raw bytes over all 256 values, raw end-of-lines, named/octal escapes, continuations, nested parentheses) planted in random trees and programs (buckets raweol-*); plus a malformed stream (mutated prints and token soup) compared with the model by value-or-error only. non-trivial = parsed without error to a non-empty result."
+	c.Rep.Rule = "object trees: every container skeleton to depth 4 (3 in quick) with ≤2 children per array/dict, leaves cycled over a 3-atom alphabet per type, plus random trees to depth 8 with strings/names over all 256 bytes, int64 limits and dyadic reals; each printed by an ISO 32000-1 §7.2-7.3 printer under 10 spelling policies (minimal/maximal white space, comments, CR/LF/CRLF, literal/escaped/octal/hex strings, #-escaped names, random mix); random operator programs (≤60 operations, all operand types, incl. ' \" T* d0); integer/reference sequences; names and strings whose bytes are exactly a keyword or operator of the format (true false null R obj endobj stream endstream xref trailer startxref f n BI ID EI and all 70 content operators, plus one-byte-longer/shorter/other-case near misses) at every position of arrays, dictionaries (key, value, both; last and followed), nested containers, top-level sequences, next to integers and references, and of operand lists (also before the operator of the same spelling), under the ten policies (buckets kwspelled-*); every document-level input also through io.Readers with short reads (1,2,3,7,4095,… byte pieces, random schedules, last piece with io.EOF); large arrays/dictionaries/object sequences/nested containers/long strings and operator programs whose print crosses 1-3 multiples of the 4096-byte I/O buffer, each slid by a white-space or comment prefix of 0..K-1 bytes (K=40 quick, 130 thorough) so that every token and separator kind lies across offsets 4095/4096, 8191/8192, 12287/12288 in turn (distribution buckets straddle-*); container chains nested 498, 499, 500, 501, 502 deep (thorough: also 1, 2, 37, 250, 490, 510, 1000, 1501) around the parsers' documented limit of 500 containers open at once - all arrays, all dictionaries, alternating either way, random per level; alone or with scalar / container siblings before, after or on both sides of the deep child at every level; innermost an empty container, a scalar of every type, or a string / name made of the bytes that open containers - each as a document-level object and as a content-stream operand under two (thorough: all ten plus a random) spelling policies; 499..1100 sibling containers inside one array, one dictionary, one top-level sequence, one operand list and one operation each (levels are given back); three chains at the limit side by side, in sequence and inside one more container, with a too deep one in no / first / middle / last position; and unbalanced inputs (opening delimiters only to depth 3000 (5000), closing delimiters cut off or in excess) (buckets nest-*); literal strings with raw end-of-line bytes inside - CR, CR LF, LF CR, CR CR, CR LF CR LF, CR CR LF (LF as control) alone, first, last, in the middle, inside balanced parentheses, next to escaped backslashes, line continuations of every kind, \\n \\r and octal escapes and binary bytes - each at every position of arrays, dictionaries, nested containers, object sequences (also next to references) and operand lists (Tj, TJ arrays, ' and \", BDC dictionaries) under the ten policies, through full and short reads, and as the same operand for both parsers, plus random piecewise spellings (raw bytes over all 256 values, raw end-of-lines, named/octal escapes, continuations, nested parentheses) planted in random trees and programs (buckets raweol-*); for progress (stage 13): random trees and object sequences under the ten policies and random ones, EVERY PREFIX of short prints (the input ends inside each kind of token in turn), ~110 hand-picked boundary inputs (lone delimiters, truncated escapes, sign-only numbers, int64 limits, `n g R` next to `obj`/`stream`, keywords glued to other tokens) and mutated prints / token soup, each lexed with Token.Pos and SkippedBytes, parsed with the parser's two-token window and error flag observed after every ParseObject call, and read as ONE content-stream operand with the position after it (buckets lexp:*, win:*, win-calls:*, operand:*, operand-agree:*, progress-*); plus a malformed stream (mutated prints and token soup) compared with the model by value-or-error only. non-trivial = parsed without error to a non-empty result."
 
 	// 1. exhaustive container skeletons ------------------------------------------------
 	depth := c.N(3, 4)
@@ -797,6 +801,11 @@ func Run(c *hx.Ctx) {
 		x.stageRawEOL()
 	}
 
+	// 13. progress: token positions, the parser's window, one operand (progress.go) ---------------------------
+	if stage(13) && !poisoned {
+		x.stageProgress()
+	}
+
 	// 7. malformed / raw stream: value-or-error against the model only ---------------------------
 	if poisoned {
 		c.Note("run cut short after an in-process hang (a goroutine of the implementation is still spinning)")
@@ -843,6 +852,9 @@ func Run(c *hx.Ctx) {
 	// the two defect witnesses of DESIGN §7 always travel with the stream
 	for _, w := range []string{"[ 1 ) ]", "<< /A > /B 2 >>", "<< ", "<<", "<4> Tj", "[true] TJ", "% c\nq"} {
 		raws = append(raws, rawCase{K: "obj", In: hx.HexS(w)}, rawCase{K: "cs", In: hx.HexS(w)}, rawCase{K: "lex", In: hx.HexS(w)})
+	}
+	if stage(13) {
+		raws = append(raws, progressRaws(c)...)
 	}
 	c.Note("raw cases: %d (skipped %d with number tokens beyond exact range)", len(raws), skipped)
 	x.runBatch(raws)
@@ -938,6 +950,18 @@ func Replay(c *hx.Ctx, kase map[string]interface{}) {
 		}
 		if expect != "" && o.line != expect && (expect2 == "" || o.line != expect2) {
 			fail(key, o)
+		}
+	case "lexp":
+		if o := runLexp(in); !abnormal(c, o.outcome, kind, in) {
+			judgeLexp(c, in, o)
+		}
+	case "win":
+		if o := runWin(in); !abnormal(c, o.outcome, kind, in) {
+			judgeWin(c, in, o)
+		}
+	case "operand":
+		if o := runOperand(in); !abnormal(c, o.outcome, kind, in) {
+			runner{c}.judgeOperand(in, o)
 		}
 	case "leak":
 		f, _ := kase["first"].(string)
